@@ -14,7 +14,7 @@
    (k-th element) mod n, 0 once the list is exhausted — exactly what hook H1 (verif_hooks.rs) does with its script.
    [variant] selects the code as it was before the three repairs of this property (kept for the refutation lemmas and
    the regression corpus); [current] is the code as it is now.  No proofs in this file. *)
-From CSL Require Import Base.Prelude Num.Value.
+From CSL Require Import Base.Prelude Num.Value Num.ValueNorm.
 Local Open Scope N_scope.
 
 (* ------------------------------------------------------------------------------------------- *)
@@ -82,6 +82,10 @@ Fixpoint imap_insert (u : utxo) (m : imap) : imap :=
   end.
 
 Definition imap_of_list (l : list utxo) : imap := fold_left (fun m u => imap_insert u m) l [].
+
+(* TxInputsBuilder::push_input (since /repo bb8d7fa): the amount is stored without zero quantities and without
+   policies that hold no asset *)
+Definition norm_utxo (u : utxo) : utxo := mkUtxo (u_id u) (value_without_empty_entries (u_val u)) (u_ok u).
 Definition imap_ids (m : imap) : list N := map u_id m.
 
 (* inputs.0.iter().filter(|utxo| !self.inputs.has_input(&utxo.input) && offered_outpoints.insert(&utxo.input)) *)
@@ -111,6 +115,9 @@ Record scenario : Type := mkScenario {
   sc_burn : value;               (* negative part of the mint *)
   sc_donation : option N
 }.
+
+(* the input map of the builder before the call *)
+Definition initial_map (sc : scenario) : imap := imap_of_list (map norm_utxo (sc_pre sc)).
 
 (* get_explicit_input + implicit + mint (tx_builder.rs:1764-1769) *)
 Definition total_input (sc : scenario) (m : imap) : result value :=
@@ -236,7 +243,7 @@ Section Model.
   Definition add_input (with_fee : bool) (i : nat) (u : utxo) (st : sel_state) : sel_state * outcome unit :=
     obind st (if with_fee then of_result (fee_for_input (st_inputs st) u) else Done 0) (fun fee =>
     if u_ok u then
-      let st1 := mkSt (imap_insert u (st_inputs st)) (st_in st) (st_out st) (st_trace st ++ [i]) in
+      let st1 := mkSt (imap_insert (norm_utxo u) (st_inputs st)) (st_in st) (st_out st) (st_trace st ++ [i]) in
       obind st1 (of_result (value_checked_add (st_in st) (u_val u))) (fun it =>
       let st2 := mkSt (st_inputs st1) it (st_out st) (st_trace st1) in
       if with_fee then
@@ -488,7 +495,7 @@ Section Model.
     let '(st, r) := x in (st, ob r (fun _ => Done tt)).
 
   Definition initial_state (sc : scenario) : sel_state * outcome unit :=
-    let m0 := imap_of_list (sc_pre sc) in
+    let m0 := initial_map sc in
     let st_err := mkSt m0 value_zero value_zero [] in
     obind st_err (of_result (total_input sc m0)) (fun it0 =>
     obind st_err (of_result (let* t := total_output sc in
@@ -530,7 +537,7 @@ Section Model.
 
   (* the offered UTxOs that can still be spent; the positions recorded in st_trace refer to this list *)
   Definition effective_offered (offered : list utxo) (sc : scenario) : list utxo :=
-    if v_skip_present v then filter_offered (imap_ids (imap_of_list (sc_pre sc))) offered else offered.
+    if v_skip_present v then filter_offered (imap_ids (initial_map sc)) offered else offered.
 
   (* every asset of the target has to be covered by input_total *)
   Definition asset_guard (st : sel_state) : bool :=
@@ -573,7 +580,7 @@ Section FeeModel.
   Definition fee_for_input_of (ph : N) (m : imap) (u : utxo) : result N :=
     let* a := raw (final_fee req ph) m in
     if u_ok u then
-      let* b := raw (final_fee req ph) (imap_insert u m) in
+      let* b := raw (final_fee req ph) (imap_insert (norm_utxo u) m) in
       if get_new_fee req a <=? get_new_fee req b then Ok (get_new_fee req b - get_new_fee req a) else Err
     else Err.
 End FeeModel.
